@@ -37,4 +37,12 @@ def run(prog: Program, col: Collector, tier: str, refs: Optional[Refs] = None, c
     algebra.r_operand_multiplicity(prog, col, refs, cat, "R02.8")
     algebra.r_absent_vars_kernel(prog, col, refs, cat, "R02.9")
     algebra.r_exact_counts(prog, col, refs, cat, "R02.10")
+    # the kernels behind the eager (logaddexp, add) contraction rule: NaN-free and exact at -inf (shared with C15 R15.8 / C08 R08.9)
+    from . import numerics
+    numerics.run(prog, col, refs, cat, rule_log="R02.11", rule_safe=None)
+    algebra.r_semiring_roles(prog, col, refs, cat, "R02.12")
+    algebra.r_operand_returned_unchanged(prog, col, refs, cat, "R02.13")
+    algebra.r_reduce_rules_keep_absent_vars(prog, col, refs, cat, "R02.14")
+    algebra.r_size_product_over_sequence(prog, col, refs, cat, "R02.15")
+    algebra.r_contraction_rules_cover_reduced_vars(prog, col, refs, cat, "R02.16")
     return col
